@@ -11,6 +11,9 @@ package persistence
 
 // ------------------------------------------------------------------ C13 / C10: write path
 //@ func (*Manager).Save
+//@ prop C18 C10 C16
+//@ at call decodeTicketFromRequest assert[the-ticket-of-this-request] arg(decodeTicketFromRequest, 0) == req && arg(decodeTicketFromRequest, 1) == m.Options
+//@ at call setCookie assert[ticket-cookie-computed-for-this-request] arg(setCookie, 1) == rw && arg(setCookie, 2) == req && arg(setCookie, 3) == s
 //@ prop C13 C10
 //@ at call setCookie assert[cookie-only-after-persisted] called(saveSession) && ret(saveSession) == nil
 //@     && arg(setCookie, 0) == arg(saveSession, 0) && arg(setCookie, 3) == s && arg(saveSession, 1) == s
@@ -32,6 +35,8 @@ package persistence
 
 // ------------------------------------------------------------------ C13 / C01 / C02: read path
 //@ func (*Manager).Load
+//@ prop C10 C01
+//@ at call decodeTicketFromRequest assert[the-ticket-of-this-request] arg(decodeTicketFromRequest, 0) == req && arg(decodeTicketFromRequest, 1) == m.Options
 //@ prop C13 C01 C02
 //@ ensures[no-valid-ticket-no-session] ret1(decodeTicketFromRequest) != nil ==> ret1 != nil && ret0 == nil && !called(loadSession)
 //@ ensures[session-from-ticket-load] ret1(decodeTicketFromRequest) == nil ==> called(loadSession)
@@ -69,6 +74,11 @@ package persistence
 
 // ------------------------------------------------------------------ C11 / C13: delete path
 //@ func (*Manager).Clear
+//@ prop C18 C11 C16
+//@ at call decodeTicketFromRequest assert[the-ticket-of-this-request] arg(decodeTicketFromRequest, 0) == req && arg(decodeTicketFromRequest, 1) == m.Options
+//@ at call clearCookie#0 assert[deletion-cookie-computed-for-this-request] arg(clearCookie#0, 1) == rw && arg(clearCookie#0, 2) == req
+//@     && recv(clearCookie#0).options == m.Options
+//@ at call clearCookie#1 assert[deletion-cookie-computed-for-this-request-too] arg(clearCookie#1, 1) == rw && arg(clearCookie#1, 2) == req
 //@ prop C11 C13 C10
 //@ ensures[cookie-always-cleared] called(clearCookie)
 //@ ensures[stored-session-removed-or-error] ret1(decodeTicketFromRequest) == nil ==> called(clearSession)
